@@ -1,5 +1,6 @@
 import Cctp.Lemmas.Batch
 import Cctp.Lemmas.Count
+import Cctp.Props.C17
 /-
   C13 — the enabled attesters can always meet the threshold.
   The count is of stored entries (two spellings of one key are two entries).
@@ -216,5 +217,17 @@ theorem inv_txs (ext : Ext) (cfg : Cfg) (txs : List Txn) (w : World) (hs : w.set
     Inv (runTxs ext cfg w txs).1.store := by
   rw [runTxs_flatten ext cfg txs w hs]
   exact inv_run ext cfg _ w hg hb hi
+
+/-- **From genesis**: if the chain is initialised from a genesis whose own threshold lies between 1 and the number of
+    its (distinct) attesters, then after any chain of multi-message transactions — any senders, any fault plans, failing
+    or not — the threshold still lies between 1 and the number of enabled attesters.  Nothing about the state is assumed
+    beyond what InitGenesis built. -/
+theorem inv_from_genesis (ext : Ext) (cfg : Cfg) (g : Genesis) (st0 : Store) (led : Ledger) (txs : List Txn)
+    (hl : led.faults = []) (hi : Genesis.init ext [] g = .ok st0) (h0 : Inv st0)
+    (hb : count st0 + (committed ext cfg ⟨st0, led⟩ txs).length < 2 ^ 32) :
+    Inv (runTxs ext cfg ⟨st0, led⟩ txs).1.store := by
+  have hs : (⟨st0, led⟩ : World).settle = ⟨st0, led⟩ := by
+    cases led; simp only [World.settle] at *; simp_all
+  exact inv_txs ext cfg txs ⟨st0, led⟩ hs (C17.good_init ext g st0 hi) hb h0
 
 end Cctp.C13
